@@ -33,6 +33,12 @@ def _call(w, fn, *a, **kw):
         try:
             return ("ok", R.guarded(fn, *a, budget=R.CONFIRM_BUDGET, **kw))
         except R.CallTimeout:
+            if w.hang_not_judgeable():
+                # a search over a factorially symmetric operand (say ten
+                # unbonded atoms of one element and a descriptor that rejects
+                # most assignments) legitimately takes this long: no verdict
+                w.stats["hang_on_factorially_symmetric_input_not_judged"] += 1
+                raise w.ExpensiveInput()
             return ("hang", None)
         except Exception as e:  # noqa: BLE001
             return ("exc", e)
